@@ -206,6 +206,36 @@ func scanGuard(c *core.Ctx) []ob {
 				// the same through chains of such locals (totDegree := degree0 + degree1; degree0, degree1 := op0.Degree(), …):
 				// the condition with every single-definition local replaced by its definition
 				cond += " ; " + expandLocals(fd, is.Cond, is.Cond, 0)
+				// inside a loop over a literal table (`for _, chain := range []struct{…}{{moduli: q}, {moduli: p}}`): the
+				// condition once per row, with the row's fields in place of `chain.field`
+				ast.Inspect(fd.Body, func(y ast.Node) bool {
+					rs, ok := y.(*ast.RangeStmt)
+					if !ok || rs.Value == nil || rs.Pos() > is.Cond.Pos() || rs.End() < is.Cond.End() {
+						return true
+					}
+					rv, ok := rs.Value.(*ast.Ident)
+					cl, ok2 := unparen(rs.X).(*ast.CompositeLit)
+					if !ok || !ok2 {
+						return true
+					}
+					base := cond
+					for _, row := range cl.Elts {
+						rcl, ok := unparen(row).(*ast.CompositeLit)
+						if !ok {
+							continue
+						}
+						v := base
+						for _, el := range rcl.Elts {
+							if kv, ok := el.(*ast.KeyValueExpr); ok {
+								if k, ok := kv.Key.(*ast.Ident); ok {
+									v = strings.ReplaceAll(v, rv.Name+"."+k.Name, exprString(kv.Value))
+								}
+							}
+						}
+						cond += " ; " + v
+					}
+					return true
+				})
 				if len(sub) > 0 {
 					// in a helper: the condition once more with the helper's parameters replaced by the caller's arguments
 					sc := cond
@@ -235,9 +265,34 @@ func scanGuard(c *core.Ctx) []ob {
 				}
 				if len(g.ops) > 0 {
 					opOK := false
+					// comparisons under a negation count with the complementary operator (!(a >= b) is a < b)
+					negated := map[*ast.BinaryExpr]bool{}
+					var markNeg func(e ast.Expr, neg bool)
+					markNeg = func(e ast.Expr, neg bool) {
+						switch v := unparen(e).(type) {
+						case *ast.UnaryExpr:
+							if v.Op == token.NOT {
+								markNeg(v.X, !neg)
+							}
+						case *ast.BinaryExpr:
+							if v.Op == token.LAND || v.Op == token.LOR {
+								markNeg(v.X, neg)
+								markNeg(v.Y, neg)
+							} else if neg {
+								negated[v] = true
+							}
+						}
+					}
+					markNeg(is.Cond, false)
+					compl := map[token.Token]token.Token{token.LSS: token.GEQ, token.GEQ: token.LSS, token.GTR: token.LEQ, token.LEQ: token.GTR, token.EQL: token.NEQ, token.NEQ: token.EQL}
 					ast.Inspect(is.Cond, func(x ast.Node) bool {
 						switch v := x.(type) {
 						case *ast.BinaryExpr:
+							if negated[v] {
+								if c2, ok := compl[v.Op]; ok {
+									v = &ast.BinaryExpr{X: v.X, Op: c2, Y: v.Y, OpPos: v.OpPos}
+								}
+							}
 							for _, o := range g.ops {
 								ordering := o == token.LSS || o == token.GTR || o == token.LEQ || o == token.GEQ
 								if !ordering || len(g.tokens) != 2 {
